@@ -26,11 +26,36 @@ Theorem C02_src_skeletons_solo_ok : solo_ok src_logger_sk = true /\ solo_ok src_
 Proof. vm_compute. split; reflexivity. Qed.
 Print Assumptions C02_src_skeletons_solo_ok.
 
+(* the fatal path of Logger::processMessage (type == QtFatalMsg: SimplePipeline::flush() = Sink::flush of every sink) is
+   bracketed too and its flush() runs while the guarding mutex is still held *)
+Theorem C02_src_logger_fatal_path_guarded : bracketed src_logger_fatal_sk = true /\ sinks_guarded src_logger_fatal_sk = true.
+Proof. vm_compute. split; reflexivity. Qed.
+Print Assumptions C02_src_logger_fatal_path_guarded.
+(* the two entry points of an installed Logger — Qt's macros (Logger::processMessage) and a direct call of the public
+   process() (OwnThreadHandler::process) — are guarded by one and the same mutex.  PARTIAL: the interleaving theorems below
+   are proved for runs in which all threads execute ONE skeleton; for runs mixing the two entry points only this static
+   obligation and the recorded traces (mode "mixed" of h_conc) stand. *)
+Theorem C02_src_entry_points_share_guard : share_guard src_logger_sk src_handler_sk = true /\ share_guard src_logger_fatal_sk src_handler_sk = true.
+Proof. vm_compute. split; reflexivity. Qed.
+Print Assumptions C02_src_entry_points_share_guard.
+
 (* 1. no two threads are ever inside the pipeline at the same moment *)
 Theorem C02_mutual_exclusion : forall sk quota n, bracketed sk = true -> threads_below n quota ->
   forall sched t1 t2, inside (run sk quota s0 sched) t1 = true -> inside (run sk quota s0 sched) t2 = true -> t1 = t2.
 Proof. exact mutual_exclusion. Qed.
 Print Assumptions C02_mutual_exclusion.
+
+(* 1'. ... nor at any instruction that touches the sinks (pipeline run or flush), for every skeleton whose sink-touching
+   instructions all lie inside the critical section of the guard *)
+Theorem C02_sink_exclusion : forall sk quota n, sinks_guarded sk = true -> threads_below n quota ->
+  forall sched t1 t2, at_sink sk (run sk quota s0 sched) t1 = true -> at_sink sk (run sk quota s0 sched) t2 = true -> t1 = t2.
+Proof. exact sink_exclusion. Qed.
+Print Assumptions C02_sink_exclusion.
+Theorem C02_logger_fatal_flush_excluded : forall quota n, threads_below n quota ->
+  forall sched t1 t2, at_sink src_logger_fatal_sk (run src_logger_fatal_sk quota s0 sched) t1 = true ->
+                      at_sink src_logger_fatal_sk (run src_logger_fatal_sk quota s0 sched) t2 = true -> t1 = t2.
+Proof. exact (fun quota n => sink_exclusion src_logger_fatal_sk quota n (proj2 C02_src_logger_fatal_path_guarded)). Qed.
+Print Assumptions C02_logger_fatal_flush_excluded.
 
 (* 2. serialisable: the sink log of any complete schedule is the log of the sequential execution of whole
    messages ([serial_log]: message k of the order gets sequence number k and is delivered k-th), the order
@@ -144,7 +169,9 @@ Print Assumptions C02_bare_handler_serialisable.
 Example C02_bracketed_discriminates :
   bracketed [Other; Lock M; Work; Unlock M] = true /\ bracketed [Lock L; Other; Work; Unlock L] = true /\
   bracketed [Lock L; Other; Unlock L; Work] = false /\ bracketed [Lock M; Work; Unlock M; Lock M; Work; Unlock M] = false /\
-  bracketed [Other; Work] = false /\ bracketed (erase_locks src_logger_sk) = false.
+  bracketed [Other; Work] = false /\ bracketed (erase_locks src_logger_sk) = false /\
+  sinks_guarded [Lock L; Work; Unlock L; Flush] = false /\ sinks_guarded [Lock L; Work; Flush; Unlock L] = true /\
+  share_guard [Lock L; Work; Unlock L] [Lock M; Work; Unlock M] = false.
 Proof. vm_compute. repeat split; reflexivity. Qed.
 
 (* non-vacuity: three threads (2, 1 and 2 messages) through today's Logger skeleton under an unfair interleaved
